@@ -252,4 +252,6 @@ example : indexSelectU64 0xFFFFFFFFFFFFFFFF = 0xC0B8B0A8A0989088 := by decide +k
 example : Gen.Ssa7.bitmap_indexSelectU64 0x8000000000000101 = some 0x8382828282828281 := by decide +kernel
 example : indexSelectU64 0 = 0x8080808080808080 := by decide +kernel
 
+example := Tie_bitmap_indexSelectU64 0x8000000000000101 (by decide)
+
 end Low
